@@ -1068,6 +1068,7 @@ pub fn handle(st: &mut State, line: &str) -> String {
             "SDP" => crate::stream::decode_n_parked(st, &mut t),
             "SDX" => crate::stream::decode_n_hopping(st, &mut t),
             "SD2" => crate::stream::decode_two(st, &mut t),
+            "SE2" => crate::stream::encode_two(st, &mut t),
             "CL" => crate::client::run(st, &mut t),
             "TLS" => crate::net::tls_cell(st, &mut t),
             "TLSPLAIN" => crate::net::tls_plain(st, &mut t),
